@@ -261,8 +261,9 @@ ConsClimb(last, nh, p, pos) ==             \* for last_node != 0 {...}
     IF last = 0 THEN [ok |-> TRUE, nh |-> nh, pos |-> pos]
     ELSE IF pos >= Len(p) THEN [ok |-> FALSE, nh |-> nh, pos |-> pos]
          ELSE ConsClimb(last \div 2, Node(nh, p[pos + 1]), p, pos + 1)
-(* anySize = TRUE: the shortcut `old_root == new_root => accept` as coded at the pinned commit (taken before
-   the sizes are looked at); anySize = FALSE: the shortcut only when the sizes are equal (the repair) *)
+(* anySize = FALSE: the code (since fix c963b88): the shortcut `old_root == new_root => accept` only when the sizes are
+   equal; anySize = TRUE: the shortcut as it was coded at the pinned commit, taken before the sizes are looked at
+   (finding F15, kept as the documented counterexample: rows carry both verdicts, `strict` and `acc`) *)
 VerifyConsistency(m, n, oroot, nroot, p, anySize) ==
     IF m > n THEN FALSE
     ELSE IF oroot = nroot /\ (anySize \/ m = n) THEN TRUE
@@ -580,7 +581,7 @@ C07Rows(kind, n, m) ==
     IN [hp |-> hp, dp |-> dp, claims |-> claims,
         judged |-> {[c |-> c, j |-> Judge(c)] : c \in claims}]
 
-(* the only unsoundness of the verifiers as coded is the named deviation: consistency shortcut with m < n *)
+(* the only unsoundness of the verifiers as they were coded before fix c963b88 is the named deviation: consistency shortcut with m < n *)
 ShortcutDeviation(c, hp) == c.v = "cons" /\ c.m < c.n /\ c.oroot = c.nroot
 C07Decide(kind, n, m) ==
     LET r == C07Rows(kind, n, m)
